@@ -90,6 +90,9 @@ func init() {
 		case "object":
 			e := testfs.NewTestFS().With(m).Open()
 			names = e.GetBootOrder()
+			// the caller keeps the list while another store is asked for its own order
+			other := testfs.NewTestFS().With(fstest.MapFS{"/sys/firmware/efi/efivars/BootOrder-8be4df61-93ca-11d2-aa0d-00e098032b8c": &fstest.MapFile{Data: []byte{7, 0, 0, 0, 0xcd, 0xab, 0xff, 0x00, 0x03, 0x20, 0x01, 0x00, 0x02, 0x00, 0x04, 0x00}}}).Open()
+			other.GetBootOrder()
 			for _, n := range names {
 				if o, err := e.GetBootEntry(n); err == nil {
 					resolved = append(resolved, hx([]byte(o.Description)))
